@@ -122,8 +122,12 @@ TNext == /\ verdict = "ok" /\ l <= Len(Traces[tid])
                             ELSE CHOOSE c \in FailStates(st, e.stmt) : c.g = st.g /\ c.H = st.H)
                       ELSE Apply(st, e.stmt)
                 loud == e.exc = "InvalidBackprop" /\ cands # {}     \* aborted backward: gradients unspecified, trace ends
+                \* a backward that was refused leaves the graph as it was: asking again must be refused again (C09: it
+                \* never turns silent); the driver retries the statement once and logs the second outcome
+                retryOK == ~(loud /\ Has(e, "retry_exc")) \/ e.retry_exc = "InvalidBackprop"
                 v  == IF failed
-                      THEN (IF cands = {} THEN "exc" ELSE IF good # {} \/ loud THEN "ok" ELSE FirstFail(s2, e0))
+                      THEN (IF cands = {} THEN "exc" ELSE IF ~retryOK THEN "retry"
+                            ELSE IF good # {} \/ loud THEN "ok" ELSE FirstFail(s2, e0))
                       ELSE FirstFail(s2, e)
                 last == l = Len(Traces[tid])
             IN /\ st' = s2 /\ verdict' = v /\ l' = l + 1 /\ UNCHANGED tid
